@@ -260,6 +260,88 @@ theorem leafLoop_length (b : GS) :
     | panic => rw [h1] at h; simp at h
     | fuel => rw [h1] at h; simp at h
 
+theorem intLoop_length (b : GS) :
+    ∀ n i acc l, intLoop b n i acc = .ok l → l.length = acc.length + n := by
+  intro n
+  induction n with
+  | zero => intro i acc l h; simp [intLoop] at h; subst h; simp
+  | succ n ih =>
+    intro i acc l h
+    rw [intLoop] at h
+    cases h1 : slc b (i * 12 + 12 + 4) (i * 12 + 12 + 8) with
+    | ok lo =>
+      rw [h1] at h; simp only [bind_ok] at h
+      cases h2 : slc b (i * 12 + 12 + 8) (i * 12 + 12 + 10) with
+      | ok hi' =>
+        rw [h2] at h; simp only [bind_ok] at h
+        cases h3 : le b (i * 12 + 12) 4 with
+        | ok fb =>
+          rw [h3] at h; simp only [bind_ok] at h
+          have := ih _ _ _ h
+          simp only [List.length_append, List.length_cons, List.length_nil] at this
+          omega
+        | err => rw [h3] at h; simp at h
+        | panic => rw [h3] at h; simp at h
+        | fuel => rw [h3] at h; simp at h
+      | err => rw [h2] at h; simp at h
+      | panic => rw [h2] at h; simp at h
+      | fuel => rw [h2] at h; simp at h
+    | err => rw [h1] at h; simp at h
+    | panic => rw [h1] at h; simp at h
+    | fuel => rw [h1] at h; simp at h
+
+theorem fixCountsAux_length (last : Nat) (l : List ExtRow) : (fixCountsAux last l).length = l.length := by
+  induction l with
+  | nil => rfl
+  | cons r rest ih => simp only [fixCountsAux, List.length_cons, ih]
+
+theorem fixCounts_length (start count : Nat) (l : List ExtRow) :
+    (fixCounts start count l).length = l.length := fixCountsAux_length _ l
+
+/-- a node that parses has exactly the announced number of rows, and they all lie inside the bytes given:
+    the slices `parseExtents` appends to hold at most (len - 12) / 12 entries -/
+theorem parseExtents_count (b : GS) (hwf : b.wf) (start count : Nat) (n : ExtNode)
+    (h : parseExtents true b start count = .ok n) :
+    n.rows.length = n.entries ∧ 12 + 12 * n.entries ≤ b.len := by
+  unfold GS.wf at hwf
+  unfold parseExtents at h
+  split at h
+  · simp at h
+  · rename_i h24
+    rw [le_ok b 0 2 (by omega)] at h
+    simp only [bind_ok] at h
+    split at h
+    · simp at h
+    · rw [le_ok b 2 2 (by omega), le_ok b 4 2 (by omega), le_ok b 6 2 (by omega)] at h
+      simp only [bind_ok, Bool.true_and] at h
+      split at h
+      · simp at h
+      · rename_i hfit
+        simp only [decide_eq_true_eq] at hfit
+        split at h
+        · cases hl : leafLoop b (leDec (GS.bytes ⟨b.buf.drop 2, 2⟩)) 0 [] with
+          | ok rows =>
+            rw [hl] at h; simp only [bind_ok, pure_eq] at h
+            injection h with h; subst h
+            have := leafLoop_length b _ _ _ _ hl
+            simp only [List.length_nil] at this
+            refine ⟨?_, ?_⟩ <;> dsimp only <;> omega
+          | err => rw [hl] at h; simp at h
+          | panic => rw [hl] at h; simp at h
+          | fuel => rw [hl] at h; simp at h
+        · cases hl : intLoop b (leDec (GS.bytes ⟨b.buf.drop 2, 2⟩)) 0 [] with
+          | ok rows =>
+            rw [hl] at h; simp only [bind_ok, pure_eq] at h
+            injection h with h; subst h
+            have := intLoop_length b _ _ _ _ hl
+            simp only [List.length_nil] at this
+            refine ⟨?_, ?_⟩
+            · dsimp only; rw [fixCounts_length]; omega
+            · dsimp only; omega
+          | err => rw [hl] at h; simp at h
+          | panic => rw [hl] at h; simp at h
+          | fuel => rw [hl] at h; simp at h
+
 /-- the checked `parseExtents` never panics, whatever the node bytes and the capacity of the slice -/
 theorem parseExtents_no_panic (b : GS) (hwf : b.wf) (start count : Nat) :
     parseExtents true b start count ≠ .panic := by
